@@ -24,7 +24,10 @@ func checkC04(c *Ctx) {
 	c.Rule("R4.5", "per-call private encoder state; exclusive ownership of pooled buffers", 6)
 	c.Rule("R4.6", "tees and multi-syncers visit every branch, no early exit", 3)
 	c.Rule("R4.7", "no goroutine start or channel send on the logging path", 2)
+	c.Rule("R4.9", "file sinks are opened in append mode (several descriptors on one file add whole lines at its end)", 4)
 	c.Rule("R4.8", "BufferedWriteSyncer buffers whole writes", 3)
+
+	c19FileOpen(c, "R4.9")
 
 	// R4.1 (shares the decision procedure of R8.4)
 	{
